@@ -1,0 +1,75 @@
+//go:build verif
+
+// Contracts checked by /verif/gvc (contract-based deductive verification).
+// This file contains comments only; it is compiled only under the "verif" build tag.
+
+package redis
+
+// C09 — the redis-backed message queue of a session: the list queue:<client id>. What is stated here is the command
+// interface and the bookkeeping that decides what is delivered again after a restart: a session that is resumed keeps
+// its list (nothing is deleted), starts reading at the head again (current = 0, in-flight not drained), so that every
+// element that carries a packet identifier — sent, not acknowledged — is handed out again before any new one; a clean
+// start deletes the list first. An acknowledged element is removed from redis before the cache forgets it.
+
+//@ func getKey inline
+//@ func wrapError trusted pure
+//@ ensures result != nil
+//@ func (*queue.Elem).Decode trusted
+//@ params e, b
+//@ requires e != nil
+//@ modifies e.*
+//@ ensures result == nil ==> e.MessageWithID != nil
+//@ func (*queue.Elem).Encode trusted pure
+
+//@ func (*Queue).setLen
+//@ props C09
+//@ requires [C09] q != nil && conn != nil
+//@ waive assert-type
+//@ modifies q.len, ghost(conn.$cmds), ghost(conn.$lastCmd), ghost(conn.$lastInt)
+//@ call Conn.Do#1 assert [C09] commandName == "llen" && len(args) == 1 && args[0].(type string) && args[0].(string) == concat("queue:", q.clientID)
+//@ ensures [C09] result != nil ==> q.len == old(q.len)
+
+//@ func (*Queue).Init
+//@ props C09
+//@ requires [C09] q != nil && opts != nil && q.pool != nil && q.cond != nil && q.cond.L != nil
+//@ modifies heap, ghostall(redigo.Conn.$cmds), ghostall(redigo.Conn.$lastCmd), ghostall(redigo.Conn.$flushes), ghostall(redigo.Conn.$lastInt)
+//@ preserves all(queue.InitOptions.*)
+// a resumed session's list is never deleted; a clean start deletes exactly this client's list, first
+//@ ensures [C09] !opts.CleanStart ==> called(Conn.Do#1) == 0
+//@ call Conn.Do#1 assert [C09] opts.CleanStart && commandName == "del" && len(args) == 1 && args[0].(type string) && args[0].(string) == concat("queue:", q.clientID) && called(Queue.setLen#1) == 0
+//@ ensures [C09] result == nil ==> called(Queue.setLen#1) == 1 && (opts.CleanStart ==> called(Conn.Do#1) == 1)
+// reading starts at the head again and the in-flight part is to be handed out again
+//@ ensures [C09] result == nil ==> q.current == 0 && !q.inflightDrained && !q.closed && q.version == opts.Version && q.readBytesLimit == opts.ReadBytesLimit && q.notifier == opts.Notifier && q.readCache != nil && len(q.readCache) == 0
+//@ ensures [C09] result != nil ==> q.current == old(q.current) && q.inflightDrained == old(q.inflightDrained) && q.readCache == old(q.readCache)
+
+// Remove (an acknowledgement arrived): only an element that was handed out (it is in the read cache) is removed — one
+// occurrence of exactly the bytes that were handed out, from this client's list — and the cache and the counters
+// change only after redis took the command.
+//@ func (*Queue).Remove
+//@ props C09
+//@ requires [C09] q != nil && q.pool != nil && q.cond != nil && q.cond.L != nil && q.readCache != nil && q.notifier != nil
+//@ waive overflow
+//@ modifies heap, ghostall(redigo.Conn.$cmds), ghostall(redigo.Conn.$lastCmd), ghostall(redigo.Conn.$flushes), ghostall(redigo.Conn.$lastInt), ghost(q.notifier.$queued), ghost(q.notifier.$inflight)
+//@ preserves all(Queue.* - len - current)
+//@ call Conn.Do#1 assert [C09] has(q.readCache, pid) && commandName == "lrem" && len(args) == 3 && args[0].(type string) && args[0].(string) == concat("queue:", q.clientID) && args[1].(type int) && args[1].(int) == 1
+//@ call Conn.Do#1 assert [C09] args[2].(type []byte)
+//@ call Conn.Do#1 assert [C09] len(args[2].([]byte)) == len(q.readCache[pid]) && (forall k int :: 0 <= k && k < len(q.readCache[pid]) ==> args[2].([]byte)[k] == q.readCache[pid][k])
+//@ ensures [C09] !old(has(q.readCache, pid)) ==> called(Conn.Do#1) == 0 && q.len == old(q.len) && q.current == old(q.current) && result == nil
+//@ ensures [C09] old(has(q.readCache, pid)) && result == nil ==> !has(q.readCache, pid) && q.len == old(q.len) - 1 && q.current == old(q.current) - 1 && q.notifier.$queued == old(q.notifier.$queued) - 1 && q.notifier.$inflight == old(q.notifier.$inflight) - 1
+//@ ensures [C09] result != nil ==> has(q.readCache, pid) && q.len == old(q.len) && q.current == old(q.current) && q.notifier.$queued == old(q.notifier.$queued)
+//@ ensures [C09] forall k uint16 :: k != pid ==> has(q.readCache, k) == old(has(q.readCache, k))
+
+// ReadInflight (after a reconnect, before anything new): asks for the elements from the read position on; every element
+// that carries a packet identifier is handed out, remembered in the read cache and counted (current advances by one
+// each); the first element without an identifier ends the in-flight part. An element whose expiry is renewed is
+// written back at its own index.
+//@ func (*Queue).ReadInflight
+//@ props C09
+//@ requires [C09] q != nil && q.pool != nil && q.cond != nil && q.cond.L != nil && q.readCache != nil
+//@ waive assert-type overflow
+//@ modifies heap, ghostall(redigo.Conn.$cmds), ghostall(redigo.Conn.$lastCmd), ghostall(redigo.Conn.$flushes), ghostall(redigo.Conn.$lastInt)
+//@ call Conn.Do#1 assert [C09] commandName == "lrange" && len(args) == 3 && args[0].(type string) && args[0].(string) == concat("queue:", q.clientID) && args[1].(type int) && args[1].(int) == q.current && args[2].(type int) && args[2].(int) == q.current + int(maxSize) - 1
+//@ call Conn.Do#2 assert [C09] commandName == "lset" && len(args) == 3 && args[0].(type string) && args[0].(string) == concat("queue:", q.clientID) && args[1].(type int) && args[1].(int) == beginIndex + index && beginIndex + index == q.current && args[2].(type []byte) && id != 0
+//@ loop 1 invariant q != nil && q == old(q) && conn != nil && q.readCache != nil && q.readCache == old(q.readCache) && q.clientID == old(q.clientID) && beginIndex == old(q.current) && q.current == beginIndex + $k + 1 && len(elems) == $k + 1 && q.inflightDrained == old(q.inflightDrained) && q.inflightExpiry == old(q.inflightExpiry)
+//@ ensures [C09] err == nil ==> q.current == old(q.current) + len(elems)
+//@ ensures [C09] err == nil && !q.inflightDrained ==> !old(q.inflightDrained)
